@@ -1,12 +1,14 @@
 """C01: no in-contract sequence of API calls can crash the engine (union of the panic-freedom obligations)."""
 import obl_assembly as A
+import obl_context
 import obl_fixed
 import obl_kani
 import obl_phonetic
 
 
 def run(c):
-    c.only_clauses = {"no_panic"}          # the other clauses of these obligations belong to the other properties
+    import clauses
+    c.only_clauses = clauses.OWN["C01"]         # the other clauses of these obligations belong to the other properties
     obl_kani.run(c, ["k_keycode_total"])
     q = c.tier == "quick"
     obl_fixed.obl_session_fixed(c, 2 if q else 3, 1 if q else 2, 1 if q else 2, budget_s=900)
@@ -16,6 +18,7 @@ def run(c):
     obl_phonetic.obl_split(c, 3 if q else 4, budget_s=600)
     obl_phonetic.obl_phonetic_glue(c, 2 if q else 3, budget_s=900)
     obl_phonetic.obl_userfiles(c, budget_s=600)
+    obl_context.obl_context(c, thorough=not q, budget_s=600)
     if A.validate_assembly_concrete(c):
         ct = A.conv_table_for([])
         A.obl_empty_strings(c, ct, budget_s=900)
